@@ -16,9 +16,9 @@ import z3
 
 from pyvc import contracts as C
 from pyvc import models_geom as G
-from pyvc.interp import BuiltinFn, ClassVal
-from pyvc.models_geom import AP, ASIN, ATAN2, HALF_PI, HYP, INV, NdArr, PI, TAU, rz
-from pyvc.values import PDict, PList, PObj, PyvcError, SV, arith, compare, tobool
+from pyvc.interp import BuiltinFn
+from pyvc.models_geom import ATAN2, HALF_PI, INV, NdArr, PI, TAU, rz
+from pyvc.values import PList, PObj, SV, compare, tobool
 
 from .common import VectorT, repo_class
 from .geometry_ops import (
@@ -27,7 +27,6 @@ from .geometry_ops import (
     WORLD,
     _close,
     _f3,
-    _InlineAll,
     apply3,
     call_real,
     co,
@@ -36,21 +35,38 @@ from .geometry_ops import (
     input_vector,
     install_veneer_stubs,
     is_orientation,
-    is_vector,
     make_point,
-    norm2,
     rot,
-    sq,
 )
 
 VIS = "scenic.core.visibility"
 OT = "scenic.core.object_types"
 VEN = "scenic.syntax.veneer"
 
+CANSEE_ARGS = ("position", "orientation", "visibleDistance", "viewAngles", "rayCount", "rayDensity", "distanceScaling", "target", "occludingObjects")
+
+
+def vector_truediv(I, self, other):
+    """Vector.__truediv__ at call sites inside canSee: its contract, proved under C07
+    (vectors.Vector.__truediv__#ensures.divides_every_coordinate, #raises.ZeroDivisionError): every coordinate is the
+    quotient by `other`; ZeroDivisionError exactly when other == 0.  The quotient by a symbolic divisor is kept as an
+    uninterpreted term so that the view-volume obligations stay linear."""
+    from .common import make_vector
+
+    if I.decide(compare("==", other, 0)):
+        I.raise_("ZeroDivisionError", "float division by zero")
+    if isinstance(other, SV) and not z3.is_rational_value(z3.simplify(rz(other))):
+        return make_vector(*[G.quotient(I.eng, c, other) for c in self.fields["coordinates"]])
+    from pyvc.values import arith
+
+    return make_vector(*[arith("/", c, other) for c in self.fields["coordinates"]])
+
 
 def register(reg):
     G.install(reg)
     install_veneer_stubs(reg)
+    reg.models["scenic.core.vectors:Vector.__truediv__"] = vector_truediv
+    reg.trust("Vector.__truediv__ at call sites (visibility.py)", "its C07 contract (every coordinate divided, ZeroDivisionError iff the divisor is 0); quotients by symbolic divisors are uninterpreted terms with A1.quotient_times_divisor")
     register_point_branch(reg)
     register_wrappers(reg)
     register_can_see_operator(reg)
@@ -74,7 +90,8 @@ def view_volume(eng, p, R, D, h, v, t):
 
 
 class Occluder:
-    """An occluding object: distance to the viewer and the hits of the single candidate ray on its mesh."""
+    """An occluding object: its distance to the viewer and the hits of the candidate ray on its mesh
+    (trimesh `ray.intersects_location` = an arbitrary finite list of hit locations)."""
 
     def __init__(self, I, k, nhits):
         eng = I.eng
@@ -101,165 +118,502 @@ class Occluder:
         self.obj.fields.update(occupiedSpace=space, distanceTo=BuiltinFn("distanceTo", lambda point: me.dist))
 
 
-def register_point_branch(reg):
-    name = "visibility.canSee[point]"
+def viewer_inputs(I, env, oriented, tkind, ray_count=(7, 7), scaling=False):
+    eng = I.eng
+    G.use(eng, "atan2", "hypot", "asin")
+    p = input_vector(eng, "position", I)
+    o = None
+    if oriented:
+        t_ = OrientationT()
+        o = t_.fresh(eng, "orientation", I)
+        eng.input_syms.append(("orientation", t_, o))
+    D = input_real(eng, "visibleDistance", lo=0)
+    h = input_real(eng, "viewAngles.0", lo=0)
+    v = input_real(eng, "viewAngles.1", lo=0)
+    eng.assume(z3.And(rz(h) <= TAU, rz(v) <= PI))  # documented domain (larger values are truncated by OrientedPoint)
+    if tkind == "Vector":
+        tv = target = input_vector(eng, "target", I)
+    else:
+        target = make_point(I, "target", "Point")
+        tv = target.fields["position"]
+    # a target exactly at the camera position has no direction (the code divides by a zero norm: nan)
+    eng.assume(z3.Or(*[a != b for a, b in zip(co(tv), co(p))]))
+    env.vars.update(position=p, orientation=o, visibleDistance=D, viewAngles=(h, v), rayCount=ray_count, rayDensity=input_real(eng, "rayDensity", lo=0), distanceScaling=scaling, target=target, occludingObjects=PList([]), _tv=tv)
 
-    def setup(I, env):
+
+def expected_volume(I, env):
+    p, o = co(env.vars["position"]), env.vars["orientation"]
+    D, (h, v) = rz(env.vars["visibleDistance"]), [rz(x) for x in env.vars["viewAngles"]]
+    inside, parts = view_volume(I.eng, p, rot(o) if o is not None else None, D, h, v, co(env.vars["_tv"]))
+    return inside, parts, p, D
+
+
+def volume_hints(eng, parts):
+    """instances of the listed trig axioms about the normalised candidate ray the code builds"""
+    w = parts["w"]
+    n = G.hyp_term(eng, w)
+    G.instance(eng, "A2.atan2_positively_homogeneous_division", n, w[1], w[0])
+    G.instance(eng, "A2.asin_of_normalised_height_is_the_elevation", w[0], w[1], w[2])
+    G.use(eng, "hypot")
+
+
+def cansee_func():
+    from pyvc import extract
+    from pyvc.interp import FuncVal
+
+    ex = extract.extract(f"{VIS}:canSee")
+    return FuncVal(ex.node, ex.module, None, None, None)
+
+
+def register_point_branch(reg):
+    # ---------------------------------------------------------------- A. no occluders: visible <=> inside the view volume
+    nameA = "visibility.canSee[point,no-occluders]"
+
+    def setup_a(I, env):
         eng = I.eng
         WORLD.clear()
-        G.use(eng, "atan2", "hypot", "asin")
         oriented = eng.choose(2, "oriented viewer") == 1
         tkind = ["Vector", "Point"][eng.choose(2, "target kind")]
-        nocc = eng.choose(3, "number of occluders")
-        p = input_vector(eng, "position", I)
-        if oriented:
-            t_ = OrientationT()
-            o = t_.fresh(eng, "orientation", I)
-            eng.input_syms.append(("orientation", t_, o))
-        else:
-            o = None
-        D = input_real(eng, "visibleDistance", lo=0)
-        h = input_real(eng, "viewAngles.0", lo=0)
-        v = input_real(eng, "viewAngles.1", lo=0)
-        eng.assume(z3.And(rz(h) <= TAU, rz(v) <= PI))  # documented domain (larger values are truncated by OrientedPoint)
-        if tkind == "Vector":
-            tv = target = input_vector(eng, "target", I)
-        else:
-            target = make_point(I, "target", "Point")
-            tv = target.fields["position"]
-        eng.assume(z3.Or(*[a != b for a, b in zip(co(tv), co(p))]))  # a target at the camera position has no direction (nan in the code)
-        occ = [Occluder(I, k, eng.choose(3, f"hits on occluder {k}")) for k in range(nocc)]
-        ray_count_given = eng.choose(2, "rayCount given") == 1
-        scaling = False if tkind == "Vector" and not ray_count_given else (eng.choose(2, "distanceScaling") == 1)
-        env.vars.update(
-            position=p, orientation=o, visibleDistance=D, viewAngles=(h, v), rayCount=((7, 7) if ray_count_given else None), rayDensity=input_real(eng, "rayDensity", lo=0),
-            distanceScaling=scaling, target=target, occludingObjects=PList([oc.obj for oc in occ]), _occ=occ, _tv=tv,
-        )  # fmt: skip
-        eng.input_syms.append(("case", C.Const(None), f"{'oriented' if oriented else 'unoriented'}/{tkind}/{nocc}"))
+        viewer_inputs(I, env, oriented, tkind)
+        eng.input_syms.append(("case", C.Const(None), f"{'oriented' if oriented else 'unoriented'}/{tkind}"))
 
-    def hints(eng, parts):
-        """instances of the listed trig axioms about the normalised candidate ray the code builds"""
-        w = parts["w"]
-        n = G.hyp_term(eng, w)
-        G.instance(eng, "A2.atan2_positively_homogeneous", n, w[1], w[0])
-        G.instance(eng, "A2.asin_of_normalised_height_is_the_elevation", n, w[0], w[1], w[2])
-
-    def expected(I, env):
-        eng = I.eng
-        p, o = co(env.vars["position"]), env.vars["orientation"]
-        D, (h, v) = rz(env.vars["visibleDistance"]), [rz(x) for x in env.vars["viewAngles"]]
-        inside, parts = view_volume(eng, p, rot(o) if o is not None else None, D, h, v, co(env.vars["_tv"]))
-        return inside, parts, p, D
-
-    def post(I, env, outcome):
+    def post_a(I, env, outcome):
         eng = I.eng
         if outcome[0] != "return":
             return
         res = outcome[1]
-        chk = lambda clause, goal: eng.check(f"{name}#ensures.{clause}", goal)
+        chk = lambda clause, goal: eng.check(f"{nameA}#ensures.{clause}", goal)
         chk("returns_a_boolean", isinstance(res, bool))
-        inside, parts, p, D = expected(I, env)
-        hints(eng, parts)
-        occ = env.vars["_occ"]
-        # every in-range occluder leaves the line of sight free: each hit of the ray lies strictly beyond the target
-        clear = []
-        for oc in occ:
-            in_range = rz(oc.dist) <= D
-            for hv in oc.hits:
-                hd = G.hyp_term(eng, [a - b for a, b in zip(co(hv), p)])
-                clear.append(z3.Implies(in_range, hd > parts["dist"]))
-        clear = z3.And(*clear) if clear else z3.BoolVal(True)
+        inside, parts, p, D = expected_volume(I, env)
+        volume_hints(eng, parts)
         if res is True:
             chk("visible_only_inside_the_view_volume", inside)
-            chk("visible_only_if_no_occluder_blocks_the_line_of_sight", clear)
         elif res is False:
-            chk("inside_the_view_volume_and_unoccluded_implies_visible", z3.Not(z3.And(inside, clear)))
-        # the ray tested against the occluders is the world-frame ray from the camera towards the target
-        for oc in occ:
-            for origins, dirs in oc.calls:
-                o0 = co(I.iterate(origins)[0])
-                dvec = co(I.iterate(dirs)[0])
-                chk("occlusion_ray_starts_at_the_camera", eq3(o0, p))
-                chk("one_ray_per_origin", len(I.iterate(origins)) == 1 and len(I.iterate(dirs)) == 1)
-                o = env.vars["orientation"]
-                if o is not None:
-                    w, n = parts["w"], G.hyp_term(eng, parts["w"])
-                    G.instance(eng, "L-rot.homogeneous", rot(o), 1 / n, w[0], w[1], w[2])
-                for i, nm in enumerate("xyz"):
-                    chk(f"occlusion_ray_points_at_the_target_{nm}", dvec[i] * G.hyp_term(eng, parts["w"]) == parts["d"][i])
-        # monotonicity: removing the last occluder can only turn the verdict from False to True
-        if occ and res is True:
-            f = env.vars["_self_func"]
-            fewer = PList([oc.obj for oc in occ[:-1]])
-            args = [env.vars[k] for k in ("position", "orientation", "visibleDistance", "viewAngles", "rayCount", "rayDensity", "distanceScaling", "target")] + [fewer]
-            r2 = call_real(I, f, args)
-            chk("monotone_in_occluders_visible_with_more_occluders_implies_visible_with_fewer", r2 is True)
-
-    def setup_(I, env):
-        setup(I, env)
-        from pyvc import extract
-        from pyvc.interp import FuncVal
-
-        ex = extract.extract(f"{VIS}:canSee")
-        env.vars["_self_func"] = FuncVal(ex.node, ex.module, None, None, None)
+            chk("inside_the_view_volume_implies_visible", z3.Not(inside))
 
     reg.add(
-        C.Contract(
-            f"{VIS}:canSee",
-            params={},
-            setup=setup_,
-            post=post,
-            inline_all=True,
-            replay=replay_point_branch,
-            note="point/vector branch only (targets are Vectors and Points); the object branch is not reached",
-            properties=("C17",),
-        ),
-        key=f"{VIS}:canSee[point]",
+        C.Contract(f"{VIS}:canSee", params={}, setup=setup_a, post=post_a, inline_all=True, replay=replay_point_branch, note="point/vector branch only; the object branch is not reached", properties=("C17",)),
+        key=f"{VIS}:canSee[point,no-occluders]",
+    )
+
+    # ---------------------------------------------------------------- A2. default ray counts (rayCount None): same verdict, total
+    nameA2 = "visibility.canSee[point,default-ray-count]"
+
+    def setup_a2(I, env):
+        eng = I.eng
+        WORLD.clear()
+        tkind = ["Vector", "Point"][eng.choose(2, "target kind")]
+        scaling = eng.choose(2, "distanceScaling") == 1
+        viewer_inputs(I, env, False, tkind, ray_count=None, scaling=scaling)
+        eng.input_syms.append(("case", C.Const(None), f"unoriented/{tkind}/scaling={scaling}"))
+
+    def post_a2(I, env, outcome):
+        eng = I.eng
+        if outcome[0] != "return":
+            return
+        res = outcome[1]
+        chk = lambda clause, goal: eng.check(f"{nameA2}#ensures.{clause}", goal)
+        inside, parts, p, D = expected_volume(I, env)
+        volume_hints(eng, parts)
+        if res is True:
+            chk("visible_only_inside_the_view_volume", inside)
+        elif res is False:
+            chk("inside_the_view_volume_implies_visible", z3.Not(inside))
+
+    reg.add(
+        C.Contract(f"{VIS}:canSee", params={}, setup=setup_a2, post=post_a2, inline_all=True, replay=replay_default_ray_count, properties=("C17",)),
+        key=f"{VIS}:canSee[point,default-ray-count]",
+    )
+
+    # ---------------------------------------------------------------- B. occluders only ever subtract: exact characterisation + monotonicity
+    nameB = "visibility.canSee[point,occluders]"
+    SHAPES = [(0,), (1,), (2,), (0, 1), (1, 0), (1, 1)]  # hits per occluder
+
+    def setup_b(I, env):
+        eng = I.eng
+        WORLD.clear()
+        oriented = eng.choose(2, "oriented viewer") == 1
+        shape = SHAPES[eng.choose(len(SHAPES), "occluders x hits")]
+        viewer_inputs(I, env, oriented, "Vector")
+        occ = [Occluder(I, k, n) for k, n in enumerate(shape)]
+        env.vars.update(occludingObjects=PList([oc.obj for oc in occ]), _occ=occ)
+        eng.input_syms.append(("case", C.Const(None), f"{'oriented' if oriented else 'unoriented'}/hits={shape}"))
+
+    def run_with(I, env, objs):
+        args = [env.vars[k] for k in CANSEE_ARGS[:-1]] + [PList(objs)]
+        return call_real(I, cansee_func(), args)
+
+    def post_b(I, env, outcome):
+        eng = I.eng
+        if outcome[0] != "return":
+            return
+        res = outcome[1]
+        chk = lambda clause, goal: eng.check(f"{nameB}#ensures.{clause}", goal)
+        occ = env.vars["_occ"]
+        p, D = co(env.vars["position"]), rz(env.vars["visibleDistance"])
+        tdist = G.hyp_term(eng, [a - b for a, b in zip(co(env.vars["_tv"]), p)])
+        # an in-range occluder leaves the line of sight free iff every hit of the ray lies strictly beyond the target
+        clear = []
+        for oc in occ:
+            for hv in oc.hits:
+                hd = G.hyp_term(eng, [a - b for a, b in zip(co(hv), p)])
+                clear.append(z3.Implies(rz(oc.dist) <= D, hd > tdist))
+        clear = z3.And(*clear) if clear else z3.BoolVal(True)
+        unoccluded = run_with(I, env, [])  # verdict of the REAL code with nothing occluding (same inputs)
+        if res is True:
+            chk("visible_with_occluders_implies_visible_without", unoccluded is True)
+            chk("visible_only_if_no_hit_lies_between_camera_and_target", clear)
+        elif unoccluded is True:
+            chk("an_occluder_hides_the_target_only_by_a_hit_between_camera_and_target", z3.Not(clear))
+        if len(occ) >= 1:
+            fewer = run_with(I, env, [oc.obj for oc in occ[:-1]])
+            if res is True:
+                chk("monotone_adding_an_occluder_never_turns_invisible_into_visible", fewer is True)
+
+    reg.add(
+        C.Contract(f"{VIS}:canSee", params={}, setup=setup_b, post=post_b, inline_all=True, replay=replay_occluders, properties=("C17",)),
+        key=f"{VIS}:canSee[point,occluders]",
+    )
+
+    # ---------------------------------------------------------------- C. the ray tested against occluders is camera -> target
+    nameC = "visibility.canSee[point,occlusion-ray]"
+
+    def setup_c(I, env):
+        eng = I.eng
+        WORLD.clear()
+        oriented = eng.choose(2, "oriented viewer") == 1
+        viewer_inputs(I, env, oriented, "Vector")
+        occ = [Occluder(I, 0, 1)]
+        env.vars.update(occludingObjects=PList([oc.obj for oc in occ]), _occ=occ)
+        eng.input_syms.append(("case", C.Const(None), f"{'oriented' if oriented else 'unoriented'}"))
+
+    def post_c(I, env, outcome):
+        eng = I.eng
+        if outcome[0] != "return":
+            return
+        chk = lambda clause, goal: eng.check(f"{nameC}#ensures.{clause}", goal)
+        inside, parts, p, D = expected_volume(I, env)
+        o = env.vars["orientation"]
+        for oc in env.vars["_occ"]:
+            for origins, dirs in oc.calls:
+                chk("one_ray", len(I.iterate(origins)) == 1 and len(I.iterate(dirs)) == 1)
+                chk("occlusion_ray_starts_at_the_camera", eq3(co(I.iterate(origins)[0]), p))
+                dvec = co(I.iterate(dirs)[0])
+                w = parts["w"]
+                n = G.hyp_term(eng, w)
+                if o is not None:
+                    # R (w / n) = (R w) / n : instance of linearity of the rotation
+                    G.instance(eng, "L-rot.homogeneous_division", rot(o), n, w[0], w[1], w[2])
+                G.use(eng, "quotient")
+                for i, nm in enumerate("xyz"):
+                    chk(f"occlusion_ray_points_from_the_camera_at_the_target_{nm}", dvec[i] * n == parts["d"][i])
+
+    reg.add(
+        C.Contract(f"{VIS}:canSee", params={}, setup=setup_c, post=post_c, inline_all=True, replay=replay_occlusion_ray, properties=("C17",)),
+        key=f"{VIS}:canSee[point,occlusion-ray]",
     )
 
 
-def replay_point_branch(inputs, clause):
-    """Real canSee on real viewers/targets; occluders are real box Objects placed on / off the line of sight."""
+# ---------------------------------------------------------------- replay drivers (REAL code)
+
+
+def _volume_f(p, o, D, h, v, t):
     import numpy as np
 
+    d = np.array(t) - np.array(p)
+    w = o.getRotation().inv().apply(d) if o is not None else d
+    az = math.atan2(w[1], w[0]) - math.pi / 2
+    if az < -math.pi:
+        az += math.tau
+    alt = math.atan2(w[2], math.hypot(w[0], w[1]))
+    dist = float(np.linalg.norm(d))
+    margins = (D - dist, h / 2 - abs(az), v / 2 - abs(alt))
+    return all(m >= 0 for m in margins), min(abs(m) for m in margins), dist, az, alt
+
+
+def _viewer_tries(inputs):
+    D = float(inputs.get("visibleDistance", 50.0)) or 50.0
+    h, v = float(inputs.get("viewAngles.0", 0.5)), float(inputs.get("viewAngles.1", 0.5))
+    p0, t0 = _f3(inputs, "position", [10, 0, 0]), _f3(inputs, "target", inputs.get("target.position", [0, 0, 0]))
+    return [(p0, t0, D, h, v), ([10.0, 0.0, 0.0], [0.0, 0.0, 0.0], 50.0, math.radians(30), math.radians(30)), ([3.0, -4.0, 2.0], [3.0, 6.0, 2.5], 50.0, math.radians(40), math.radians(40))]
+
+
+def replay_point_branch(inputs, clause):
     from scenic.core.object_types import Point
     from scenic.core.vectors import Orientation, Vector
     from scenic.core.visibility import canSee
 
-    oriented, tkind, nocc = inputs.get("case", "oriented/Vector/0").split("/")
-    D = float(inputs.get("visibleDistance", 50.0)) or 50.0
-    h, v = float(inputs.get("viewAngles.0", 0.5)), float(inputs.get("viewAngles.1", 0.5))
-    p0, t0 = _f3(inputs, "position", [10, 0, 0]), _f3(inputs, "target", inputs.get("target.position", [0, 0, 0]))
-    tries = [(p0, t0, D, h, v), ([10.0, 0.0, 0.0], [0.0, 0.0, 0.0], 50.0, math.radians(30), math.radians(30)), ([3.0, -4.0, 2.0], [3.0, 6.0, 2.5], 50.0, math.radians(40), math.radians(40))]
+    oriented, tkind = (inputs.get("case", "oriented/Vector").split("/") + ["Vector"])[:2]
     eulers = ROTATION_CATALOGUE if oriented == "oriented" else [None]
-    for p, t, D, h, v in tries:
+    for p, t, D, h, v in _viewer_tries(inputs):
         if all(_close(a, b) for a, b in zip(p, t)):
             continue
         for e in eulers:
             o = Orientation.fromEuler(*e) if e is not None else None
             target = Vector(*t) if tkind == "Vector" else Point._with(position=Vector(*t))
             got = canSee(Vector(*p), o, D, (h, v), (7, 7), 1, False, target, [])
-            d = np.array(t) - np.array(p)
-            w = o.getRotation().inv().apply(d) if o is not None else d
-            az = math.atan2(w[1], w[0]) - math.pi / 2
-            if az < -math.pi:
-                az += math.tau
-            alt = math.atan2(w[2], math.hypot(w[0], w[1]))
-            margin = min(D - np.linalg.norm(d), h / 2 - abs(az), v / 2 - abs(alt))
-            if abs(margin) < 1e-9 or abs(D - np.linalg.norm(d)) < 1e-9 or abs(h / 2 - abs(az)) < 1e-9 or abs(v / 2 - abs(alt)) < 1e-9:
+            want, margin, dist, az, alt = _volume_f(p, o, D, h, v, t)
+            if margin < 1e-9:
                 continue  # on the boundary: rounding decides
-            want = bool(np.linalg.norm(d) <= D and abs(az) <= h / 2 and abs(alt) <= v / 2)
             if bool(got) != want:
                 return (
                     f"viewer at {p} with orientation {('Euler ' + str(e)) if e is not None else 'None'}, visibleDistance {D}, viewAngles ({h:.6g}, {v:.6g}), no occluders: canSee({t}) = {bool(got)}, "
-                    f"but in the viewer's frame the target is at distance {np.linalg.norm(d):.6g}, azimuth {az:.6g}, altitude {alt:.6g}, i.e. {'inside' if want else 'outside'} the view volume"
+                    f"but in the viewer's frame the target is at distance {dist:.6g}, azimuth {az:.6g}, altitude {alt:.6g}, i.e. {'inside' if want else 'outside'} the view volume"
                 )
     return None
 
 
+def replay_default_ray_count(inputs, clause):
+    from scenic.core.object_types import Point
+    from scenic.core.vectors import Vector
+    from scenic.core.visibility import canSee
+
+    parts = inputs.get("case", "unoriented/Vector/scaling=False").split("/")
+    tkind, scaling = parts[1], parts[2].endswith("True")
+    for p, t, D, h, v in _viewer_tries(inputs):
+        if all(_close(a, b) for a, b in zip(p, t)):
+            continue
+        target = Vector(*t) if tkind == "Vector" else Point._with(position=Vector(*t))
+        got = canSee(Vector(*p), None, D, (h, v), None, 5, scaling, target, [])  # an exception here is reported by the harness
+        want, margin, dist, az, alt = _volume_f(p, None, D, h, v, t)
+        if margin >= 1e-9 and bool(got) != want:
+            return f"viewer at {p}, rayCount None, distanceScaling {scaling}: canSee({t}) = {bool(got)}, view volume says {want}"
+    return None
+
+
+def _box_occluder(center, size=1.0):
+    from scenic.core.object_types import Object
+    from scenic.core.vectors import Vector
+
+    return Object._with(position=Vector(*center), width=size, length=size, height=size)
+
+
+def replay_occluders(inputs, clause):
+    """Real boxes on / beside / beyond the line of sight: adding one may only turn True into False."""
+    import numpy as np
+
+    from scenic.core.vectors import Orientation, Vector
+    from scenic.core.visibility import canSee
+
+    oriented = inputs.get("case", "oriented").startswith("oriented")
+    for e in (ROTATION_CATALOGUE if oriented else [None]):
+        o = Orientation.fromEuler(*e) if e is not None else None
+        p, t = np.array([10.0, 0.0, 0.0]), np.array([0.0, 0.0, 0.0])
+        between, beside, beyond = _box_occluder(list((p + t) / 2)), _box_occluder([5.0, 20.0, 0.0]), _box_occluder(list(t + (t - p) * 0.5))
+        args = (Vector(*p), o, 100.0, (math.tau, math.pi), (7, 7), 1, False, Vector(*t))
+        base = canSee(*args, [])
+        for occ in ([between], [beside], [beyond], [beside, between], [beyond, beside]):
+            r = canSee(*args, occ)
+            r_fewer = canSee(*args, occ[:-1])
+            if r and not r_fewer:
+                return f"viewer at {list(p)} orientation {e}: visible with occluders at {[list(x.position) for x in occ]} but not with the subset {[list(x.position) for x in occ[:-1]]}"
+            if r and not base:
+                return f"viewer at {list(p)} orientation {e}: visible with occluders but not visible with none"
+            blocked = any(x is between for x in occ)
+            if base and bool(r) != (not blocked):
+                return f"viewer at {list(p)} orientation {e}, full-sphere view, target {list(t)}: occluders at {[list(x.position) for x in occ]} give canSee = {bool(r)}, expected {not blocked} (only the box on the segment blocks)"
+    return None
+
+
+def replay_occlusion_ray(inputs, clause):
+    """A box sitting on the segment camera -> target must hide the target; a box elsewhere must not."""
+    import numpy as np
+
+    from scenic.core.vectors import Orientation, Vector
+    from scenic.core.visibility import canSee
+
+    oriented = inputs.get("case", "oriented").startswith("oriented")
+    for e in (ROTATION_CATALOGUE if oriented else [None]):
+        o = Orientation.fromEuler(*e) if e is not None else None
+        for p, t in ((np.array([10.0, 0.0, 0.0]), np.array([0.0, 0.0, 0.0])), (np.array([3.0, -4.0, 2.0]), np.array([3.0, 6.0, 2.5]))):
+            args = (Vector(*p), o, 100.0, (math.tau, math.pi), (7, 7), 1, False, Vector(*t))
+            if not canSee(*args, []):
+                return f"viewer at {list(p)} orientation {e} with a full-sphere view does not see {list(t)} even without occluders"
+            on_segment = _box_occluder(list((p + t) / 2))
+            if canSee(*args, [on_segment]):
+                return f"viewer at {list(p)} orientation {e}: a box centred on the segment to the target {list(t)} (at {list((p + t) / 2)}) does not hide it: the occlusion ray does not point at the target"
+    return None
+
+
+# =================================================================================================
+# 3. viewer wrappers: Point / OrientedPoint / Object .canSee
+
+
 def register_wrappers(reg):
-    pass
+    CALLS = []
+
+    def cansee_model(I, *args, **kwargs):
+        rec = dict(zip(CANSEE_ARGS, args))
+        rec.update(kwargs)
+        verdict = I.eng.fresh_bool("canSee.verdict")
+        CALLS.append((rec, verdict))
+        return verdict
+
+    reg.models[f"{VIS}:canSee"] = cansee_model
+    reg.trust("visibility.canSee at call sites (visibility.py)", "stub used only when verifying the wrappers: records the arguments and returns an arbitrary verdict (the function itself is under contract above)")
+
+    def make(kind):
+        name = f"object_types.{kind}.canSee"
+
+        def setup(I, env):
+            eng = I.eng
+            WORLD.clear()
+            del CALLS[:]
+            me = make_point(I, "self", kind, dims=False)
+            D = input_real(eng, "self.visibleDistance", lo=0)
+            me.fields.update(visibleDistance=D, viewRayCount=(7, 9), viewRayDensity=eng.fresh_real("self.viewRayDensity"), viewRayDistanceScaling=eng.fresh_bool("self.viewRayDistanceScaling"))
+            if kind != "Point":
+                me.fields["viewAngles"] = (input_real(eng, "self.viewAngles.0", lo=0), input_real(eng, "self.viewAngles.1", lo=0))
+            if kind == "Object":
+                me.fields["cameraOffset"] = input_vector(eng, "self.cameraOffset", I)
+            other = PObj("Target", tag="other")
+            occl = PList([PObj("Occluder", tag="occluder0"), PObj("Occluder", tag="occluder1")])
+            env.vars.update(self=me, other=other, occludingObjects=occl)
+
+        def post(I, env, outcome):
+            eng = I.eng
+            if outcome[0] != "return":
+                return
+            chk = lambda clause, goal: eng.check(f"{name}#ensures.{clause}", goal)
+            me = env.vars["self"]
+            chk("delegates_to_canSee_exactly_once", len(CALLS) == 1)
+            if len(CALLS) != 1:
+                return
+            rec, verdict = CALLS[0]
+            chk("returns_the_verdict_of_canSee", outcome[1] is verdict)
+            P = co(me.fields["position"])
+            if kind == "Object":
+                want = [a + b for a, b in zip(P, apply3(rot(me.fields["orientation"]), co(me.fields["cameraOffset"])))]
+                chk("camera_position_is_position_plus_rotated_camera_offset", eq3(co(rec["position"]), want))
+            else:
+                chk("camera_position_is_the_position", eq3(co(rec["position"]), P))
+            if kind == "Point":
+                chk("a_point_looks_in_every_direction", rec["orientation"] is None and rz(rec["viewAngles"][0]) == TAU and rz(rec["viewAngles"][1]) == PI)
+            else:
+                chk("views_in_its_own_orientation", rec["orientation"] is me.fields["orientation"])
+                chk("view_angles_passed_unchanged", rec["viewAngles"][0] is me.fields["viewAngles"][0] and rec["viewAngles"][1] is me.fields["viewAngles"][1])
+            chk("visible_distance_passed_unchanged", rec["visibleDistance"] is me.fields["visibleDistance"])
+            chk("ray_parameters_passed_unchanged", rec["rayCount"] is me.fields["viewRayCount"] and rec["rayDensity"] is me.fields["viewRayDensity"] and rec["distanceScaling"] is me.fields["viewRayDistanceScaling"])
+            chk("target_passed_unchanged", rec["target"] is env.vars["other"])
+            chk("occluders_passed_unchanged", rec["occludingObjects"] is env.vars["occludingObjects"])
+
+        reg.add(C.Contract(f"{OT}:{kind}.canSee", params={}, setup=setup, post=post, inline_all=True, replay=make_replay_wrapper(kind), properties=("C17",)))
+
+    for kind in ("Point", "OrientedPoint", "Object"):
+        make(kind)
+
+
+def make_replay_wrapper(kind):
+    def replay(inputs, clause):
+        """Real wrapper with the real canSee replaced by a recorder (the wrapper's own arithmetic is what is replayed)."""
+        import numpy as np
+
+        import scenic.core.object_types as ot
+        from scenic.core.vectors import Orientation, Vector
+
+        seen = []
+        saved = ot.canSee
+        ot.canSee = lambda **kw: (seen.append(kw), True)[1]
+        try:
+            P = _f3(inputs, "self.position", [1, 2, 3])
+            off = _f3(inputs, "self.cameraOffset", [0.5, 1.0, 0.25])
+            for e in ROTATION_CATALOGUE:
+                del seen[:]
+                if kind == "Point":
+                    me = ot.Point._with(position=Vector(*P))
+                elif kind == "OrientedPoint":
+                    me = ot.OrientedPoint._with(position=Vector(*P), parentOrientation=Orientation.fromEuler(*e))
+                else:
+                    me = ot.Object._with(position=Vector(*P), parentOrientation=Orientation.fromEuler(*e), cameraOffset=Vector(*off))
+                occ = [object()]
+                me.canSee(Vector(9, 9, 9), occludingObjects=occ)
+                kw = seen[0]
+                want = np.array(P) + (Orientation.fromEuler(*e).getRotation().apply(np.array(off)) if kind == "Object" else 0)
+                if not all(_close(a, b) for a, b in zip(kw["position"], want)):
+                    return f"{kind} at {P} facing {e} cameraOffset {off if kind == 'Object' else None}: canSee called with position {kw['position']}, expected {list(want)}"
+                if kw["occludingObjects"] is not occ:
+                    return f"{kind}.canSee does not pass the occluders through"
+                if kind != "Point" and not kw["orientation"].approxEq(Orientation.fromEuler(*e)):
+                    return f"{kind} facing {e}: canSee called with orientation {kw['orientation']}"
+        finally:
+            ot.canSee = saved
+        return None
+
+    return replay
+
+
+# =================================================================================================
+# 4. `X can see Y`: which objects are handed over as occluders
 
 
 def register_can_see_operator(reg):
-    pass
+    name = "veneer.CanSee.canSeeHelper"
+
+    def setup(I, env):
+        eng = I.eng
+        WORLD.clear()
+        calls = []
+
+        def scene_object(k):
+            o = make_point(I, f"obj{k}", "Object", dims=False)
+            o.fields["occluding"] = eng.fresh_bool(f"obj{k}.occluding")
+            eng.input_syms.append((f"obj{k}.occluding", C.Bool(), o.fields["occluding"]))
+            o.fields["canSee"] = BuiltinFn("canSee", lambda other, occludingObjects=(), o=o: (calls.append((o, other, occludingObjects)), eng.fresh_bool("verdict"))[1])
+            return o
+
+        objs = [scene_object(k) for k in range(3)]
+        # the viewer is one of the scene objects or a separate point; the target is a scene object, a separate point or a vector
+        xk = eng.choose(2, "viewer")
+        X = objs[0] if xk == 0 else scene_object(7)
+        yk = eng.choose(3, "target")
+        Y = objs[1] if yk == 0 else (make_point(I, "Y", "Point") if yk == 1 else input_vector(eng, "Y", I))
+        env.vars.update(X=X, Y=Y, objects=tuple(objs), _calls=calls, _objs=objs)
+        eng.input_syms.append(("case", C.Const(None), f"viewer={'scene object' if xk == 0 else 'other'}/target={['scene object', 'point', 'vector'][yk]}"))
+
+    def post(I, env, outcome):
+        eng = I.eng
+        if outcome[0] != "return":
+            return
+        chk = lambda clause, goal: eng.check(f"{name}#ensures.{clause}", goal)
+        calls, objs, X, Y = env.vars["_calls"], env.vars["_objs"], env.vars["X"], env.vars["Y"]
+        chk("asks_the_viewer_exactly_once", len(calls) == 1 and calls[0][0] is X)
+        if len(calls) != 1:
+            return
+        _, other, occluders = calls[0]
+        occluders = list(I.iterate(occluders))
+        chk("target_passed_unchanged", other is Y)
+        chk("returns_the_verdict_of_the_viewer", isinstance(outcome[1], SV))
+        for k, o in enumerate(objs):
+            listed = any(x is o for x in occluders)
+            if o is X or o is Y:
+                chk("viewer_and_target_never_occlude", not listed)
+            else:
+                # listed exactly when the object is occluding (the path condition records the decision taken on its flag)
+                chk(f"every_other_occluding_object_is_an_occluder", tobool(o.fields["occluding"]) if listed else z3.Not(tobool(o.fields["occluding"])))
+        chk("only_scene_objects_are_occluders", all(any(x is o for o in objs) for x in occluders))
+
+    def closure_env(I):
+        return {}
+
+    reg.add(C.Contract(f"{VEN}:CanSee.canSeeHelper", params={}, setup=setup, post=post, inline_all=True, replay=replay_can_see_operator, closure_env=closure_env, properties=("C17",)))
+
+
+def replay_can_see_operator(inputs, clause):
+    """`ego can see b` inside a requirement, with an occluding wall between them and a non-occluding one."""
+    import scenic
+
+    text = (
+        "ego = new Object at (0, 0, 0), with requireVisible False, with allowCollisions True\n"
+        "wall = new Object at (0, 5, 0), with width 4, with length 0.2, with height 4, with occluding {occ}, with requireVisible False, with allowCollisions True\n"
+        "b = new Object at (0, 10, 0), with requireVisible False, with allowCollisions True\n"
+        "require {neg}(ego can see b)\n"
+    )
+    for occ, visible in ((True, False), (False, True)):
+        sc = scenic.scenarioFromString(text.format(occ=occ, neg="" if visible else "not "), mode2D=False)
+        try:
+            sc.generate(maxIterations=3, verbosity=0)
+        except Exception as ex:
+            if type(ex).__name__ == "RejectionException":
+                return f"a wall with occluding={occ} between ego and b: `ego can see b` is {not visible}, expected {visible}"
+            raise
+    return None
